@@ -31,6 +31,7 @@ type AvahiProvider struct {
 	manualShutdown  bool
 	setupSuccessful bool
 	listenerRunning bool
+	reconnecting    bool
 
 	mdnsServiceData *mdnsServiceData
 
@@ -237,6 +238,14 @@ func (a *AvahiProvider) avahiCallback(event avahi.Event) {
 		return
 	}
 
+	// a failed reconnect attempt closes the connection again and is reported as
+	// disconnect as well, the running attempt takes care of it
+	if a.reconnecting {
+		a.mux.Unlock()
+		return
+	}
+	a.reconnecting = true
+
 	logging.Log().Debug("mdns: avahi - disconnected")
 
 	// the server was shutdown, set it to nil so we don't try to call free functions
@@ -255,6 +264,9 @@ func (a *AvahiProvider) attemptReconnect(cb api.MdnsResolveCB) {
 	for {
 		a.mux.Lock()
 		isManualShutdown := a.manualShutdown
+		if isManualShutdown {
+			a.reconnecting = false
+		}
 		a.mux.Unlock()
 		if isManualShutdown {
 			return
@@ -265,6 +277,7 @@ func (a *AvahiProvider) attemptReconnect(cb api.MdnsResolveCB) {
 		a.mux.Lock()
 		// a shutdown while waiting is final, do not undo it
 		if a.manualShutdown {
+			a.reconnecting = false
 			a.mux.Unlock()
 			return
 		}
@@ -282,6 +295,7 @@ func (a *AvahiProvider) attemptReconnect(cb api.MdnsResolveCB) {
 				logging.Log().Debug("mdns: avahi - error re-announcing service:", err)
 			}
 		}
+		a.reconnecting = false
 		a.mux.Unlock()
 
 		return
